@@ -24,8 +24,8 @@ ASSUMPTIONS = ['environment = deterministic function of (c, load factor) with re
                'falls back to no merging if these locals are renamed']
 
 HORIZON = 6000          # callable invocations per execution
-ITER_LETTERS = ['C', 'H', 'S', 'E', 'U']          # default first
-MODES = ['fast', 'late', 'diverge', 'slow', 'never']
+ITER_LETTERS = ['C', 'H', 'S', 'E', 'U', 'X']     # default first; X = the user callable returns NaN (state left the domain of the force law)
+MODES = ['fast', 'late', 'diverge', 'slow', 'never', 'nan']
 LS_LETTERS = ['h', 'n', 'e']
 
 
@@ -116,6 +116,8 @@ class Env:
         tol = self.cfg['absTOL']
         if letter == 'C':
             return 0.4 * tol
+        if letter == 'X':
+            return float('nan')
         mag = {'H': 0.5 * prev, 'S': prev * (1 - 0.5 * self.cfg['too_slow_TOL']), 'E': prev, 'N': 0.9 * prev,
                'U': 2.0 * prev}[letter]
         return max(mag, 3.0 * tol)          # a non-C letter never converges by accident
@@ -127,7 +129,7 @@ class Env:
         for t in range(1, it + 1):
             letter = self.mode_letter(mode, t)
             mag = self.mag_of(letter, prev)
-            if letter != 'C':
+            if letter not in ('C', 'X'):
                 prev = mag
         return mag, letter
 
@@ -175,7 +177,7 @@ class Env:
                 cur['mode'] = MODES[ch]
             mag, letter = self.mode_mag(cur['mode'], cur['it'])
         cur['letters'].append(letter)
-        if letter != 'C':
+        if letter not in ('C', 'X'):
             cur['prev'] = mag
         R = mag * self.dirv
         cur['Rvec'] = R
@@ -192,6 +194,8 @@ class Env:
             return 'H' if it <= 2 else 'U'
         if mode == 'slow':
             return 'H' if it <= 2 else 'S'
+        if mode == 'nan':
+            return 'H' if it == 1 else 'X'
         return 'N'
 
     def calc_fint(self, c=None, inc=None, silent=True, **kw):
